@@ -167,6 +167,34 @@ def c01p(db, res, own):
     """A field that its record's destructor releases must own what it points to.  Storing the value of some other record's field
     into it makes two owners of one block (or frees memory that was only borrowed): the first destructor that runs frees what
     the other still uses."""
+    # ---- C01.q a view handed out through (&pointer, &length) is never lengthened by hand
+    res.rule('C01.q', 'a view is never lengthened by hand: a local length that a callee filled in through adjacent out-parameters (&data, &len) - the consolidated line - is not incremented afterwards; the bytes behind the view are not there (the view may be the carry buffer, which ends at the old length), a longer line is obtained by asking for the view again')
+    nq = 0
+    for name, f in sorted(db.fn.items()):
+        if not f.blocks:
+            continue
+        for b, i, c in f.calls():
+            args = c.get('args') or []
+            for j in range(len(args) - 1):
+                a0, a1 = strip(args[j]), strip(args[j + 1])
+                if not (a0.get('k') == 'un' and a0['op'] == '&' and strip(a0['e']).get('k') == 'var' and a1.get('k') == 'un' and a1['op'] == '&' and strip(a1['e']).get('k') == 'var'):
+                    continue
+                D, L = strip(a0['e']), strip(a1['e'])
+                if '*' not in (D.get('t') or '*') or (L.get('t') or '') not in ('size_t', 'unsigned long', 'int', 'unsigned int', 'uint32_t', 'uint64_t', 'long'):
+                    continue
+                nq += 1
+                grown = None
+                after = C.reachable(f, b)
+                for bb, ii, st in f.stmts():
+                    if not ((bb == b and ii > i) or (bb != b and bb in after)):
+                        continue
+                    for y in nodes(st, lambda y: (y.get('k') == 'un' and y['op'] in ('++', '++post') and strip(y['e']).get('k') == 'var' and strip(y['e'])['name'] == L['name'])
+                                   or (y.get('k') == 'assign' and y['op'] == '+=' and strip(y['l']).get('k') == 'var' and strip(y['l'])['name'] == L['name'])):
+                        grown = y
+                key = '%s:%s(&%s,&%s)' % (name, c.get('callee'), D['name'], L['name'])
+                res.check(grown is None, 'C01.q', key, 'the length of the view is only ever reduced or refilled',
+                          '%s lengthens `%s` by hand after %s() handed out the view (%s, %s): when the view is the carry buffer it ends at the old length, and whoever is given (%s, %s) reads past the allocation' % (name, L['name'], c.get('callee'), D['name'], L['name'], D['name'], L['name']), (grown or c).get('loc', f.loc))
+    res.floor('C01.q', 'views handed out through adjacent out-parameters', nq, 10)
     res.rule('C01.p', 'owning fields own: a field that receives allocations somewhere (and is released with its record) is never assigned the value read from another record\'s field - a borrowed pointer - except at the tabled hand-overs')
     n = 0
     for name, f in sorted(db.fn.items()):
